@@ -62,6 +62,18 @@ CHECKS["C05"] = dict(
     design_ref="DESIGN.md#c05",
 )
 
+CHECKS["C12"] = dict(
+    category="exploration",
+    text="Real engine runs; the API's request log (logical sequence, monotonic time, test-case id header) is joined with the "
+    "recorders to count requests per phase/operation/scenario: fuzzing requests <= max_examples on unfailed operations, steps per "
+    "stateful scenario <= step count, failed scenarios <= max_failures and later phases SKIP(failure limit reached) with no "
+    "requests, <= one request per worker after stop() (stop indices sampled, delays at case entry/transport), no duplicate "
+    "request under unique_inputs where collisions are forced, no gross rate-limit breach with 1 and 4 workers.",
+    note="Rate limit: only more than `limit` requests within half a period is a verdict. Stop: one in-flight request per worker is allowed.",
+    technique="runtime monitoring: conservation/bound counters over the server-side request log joined with the event stream",
+    design_ref="DESIGN.md#c12",
+)
+
 NOT_APPLICABLE = {}
 
 
